@@ -394,3 +394,241 @@ Proof.
   destruct (e_num_ext_dir (n_exts D m) (dirb t) =? 1); cbv beta iota; rewrite ?Ea, ?Hm; reflexivity.
 Qed.
 End Walk.
+
+(* ================================================================ the loops refine AbstractWalk *)
+Lemma extend_incl {V} (eq_dec : forall x y : V, {x = y} + {x <> y}) next fuel : forall avail v s p a',
+  AbstractWalk.extend V eq_dec next fuel avail v s = (p, a') ->
+  (forall x, In x (verts V p) -> In x avail) /\ (forall x, In x a' -> In x avail).
+Proof.
+  induction fuel as [|f IH]; intros avail v s p a' H; cbn in H.
+  - injection H as <- <-. split; [intros x []|auto].
+  - destruct (next v s) as [[w t]|]; [|injection H as <- <-; split; [intros x []|auto]].
+    destruct (mem V eq_dec w avail) eqn:Em; [|injection H as <- <-; split; [intros x []|auto]].
+    destruct (AbstractWalk.extend V eq_dec next f (remove eq_dec w avail) w (flip t)) as [p0 a0] eqn:E.
+    injection H as <- <-. destruct (IH _ _ _ _ _ E) as [H1 H2]. apply mem_In in Em. split.
+    + intros x [<-|Hx]; auto. apply H1 in Hx. apply in_remove in Hx. tauto.
+    + intros x Hx. apply H2 in Hx. apply in_remove in Hx. tauto.
+Qed.
+
+Section Refine.
+Variable D : Type.
+Variable reduce : D -> D -> D.
+Variable join : D -> D -> bool.
+Variable K : nat.
+Variable stranded : bool.
+Hypothesis join_sym : forall a b, join a b = join b a.
+Local Notation graph := (graph D).
+Local Notation gnode := (gnode D).
+Local Notation rnext := (rnext D join K stranded).
+Local Notation winv := (winv D K stranded).
+
+(* the step function handed to AbstractWalk: the static conditions, on surviving nodes only *)
+Definition wnext (g : graph) (S : list nat) (v : nat) (s : side) : option (nat * side) :=
+  if mem_nat v S then match rnext g v (ds s) with Some (y, t) => Some (y, sd t) | None => None end else None.
+
+Lemma wnext_inv g S v s w t : wnext g S v s = Some (w, t) -> In v S /\ rnext g v (ds s) = Some (w, ds t).
+Proof.
+  unfold wnext. destruct (mem_nat v S) eqn:E; [|discriminate]. apply mem_nat_In in E.
+  destruct (rnext g v (ds s)) as [[y t0]|]; [|discriminate]. intro H. injection H as <- <-. now rewrite ds_sd.
+Qed.
+
+Lemma wnext_sym g S : winv g S -> forall v s w t, wnext g S v s = Some (w, t) -> wnext g S w t = Some (v, s).
+Proof.
+  intros W v s w t H. apply wnext_inv in H. destruct H as [Hv Hr].
+  pose proof (rnext_target D join K stranded _ _ _ _ _ _ W Hr) as Hw.
+  pose proof (rnext_sym D join K stranded join_sym _ _ _ _ _ _ W Hv Hr) as Hs.
+  unfold wnext. apply mem_nat_In in Hw. rewrite Hw, Hs. now rewrite sd_ds.
+Qed.
+
+Lemma wnext_target g S v s w t : winv g S -> wnext g S v s = Some (w, t) -> In w S.
+Proof. intros W H. apply wnext_inv in H. destruct H as [_ Hr]. eapply rnext_target; eauto. Qed.
+
+Definition cp (p : list (nat * side)) : list (nat * dir) := map (fun x => (fst x, ds (snd x))) p.
+(* terminal extensions reported by a walk that ends at node v, looking out of side d *)
+Definition texts (g : graph) (vd : nat * side) : N :=
+  match nth_error g (fst vd) with Some n => e_single_dir (n_exts D n) (dirb (ds (snd vd))) | None => 0 end.
+
+Lemma extend_refines g S : winv g S -> forall fuel avail cur d p a',
+  In cur S -> (length avail < fuel)%nat ->
+  AbstractWalk.extend nat Nat.eq_dec (wnext g S) fuel avail cur (sd d) = (p, a') ->
+  extend_node_loop D join K stranded fuel g avail cur d = Some (cp p, texts g (last_out nat cur (sd d) p), a').
+Proof.
+  intro W. induction fuel as [|f IH]; intros avail cur d p a' Hc Hlen He; [lia|].
+  cbn [AbstractWalk.extend] in He. cbn [extend_node_loop].
+  assert (Hn : exists n, nth_error g cur = Some n).
+  { destruct (nth_error g cur) eqn:E; eauto. apply nth_error_None in E. pose proof (wi_S _ _ _ _ _ W cur Hc). lia. }
+  destruct Hn as [n Hn]. rewrite (try_extend_spec D join K stranded g S avail cur d n W Hc Hn).
+  assert (Hw : wnext g S cur (sd d) = match rnext g cur d with Some (y, t) => Some (y, sd t) | None => None end).
+  { unfold wnext. now rewrite (proj2 (mem_nat_In cur S) Hc), ds_sd. }
+  rewrite Hw in He. clear Hw.
+  destruct (rnext g cur d) as [[y t]|] eqn:Er.
+  - rewrite <- mem_nat_mem in He. destruct (mem_nat y avail) eqn:Ea.
+    + destruct (AbstractWalk.extend nat Nat.eq_dec (wnext g S) f (remove Nat.eq_dec y avail) y (flip (sd t)))
+        as [p0 a0] eqn:E0. injection He as <- <-.
+      rewrite remove_nat_remove. rewrite <- sd_dflip in E0.
+      assert (Hy : In y S) by (eapply rnext_target; eauto).
+      assert (Hl : (length (remove Nat.eq_dec y avail) < f)%nat).
+      { apply mem_nat_In in Ea. pose proof (remove_length_lt Nat.eq_dec avail y Ea). lia. }
+      rewrite (IH _ _ _ _ _ Hy Hl E0). cbn [cp map fst snd last_out]. rewrite ds_sd, dflip_dflip, sd_dflip. reflexivity.
+    + injection He as <- <-. cbn. unfold texts. cbn. now rewrite Hn, ds_sd.
+  - injection He as <- <-. cbn. unfold texts. cbn. now rewrite Hn, ds_sd.
+Qed.
+
+(* payload fold and spelled sequence are defined as soon as all ids are in range *)
+Fixpoint datas (g : graph) (ids : list nat) : option (list D) :=
+  match ids with
+  | [] => Some []
+  | i :: r => match nth_error g i, datas g r with Some n, Some t => Some (n_data D n :: t) | _, _ => None end
+  end.
+Definition red (g : graph) (acc : option D) (x : nat * dir) : option D :=
+  match acc, (match nth_error g (fst x) with Some n => Some (n_data D n) | None => None end) with
+  | Some a, Some b => Some (reduce a b) | _, _ => None end.
+Lemma fold_red g path : forall acc,
+  fold_left (red g) path acc =
+  match acc, datas g (map fst path) with Some a, Some ds => Some (fold_left reduce ds a) | _, _ => None end.
+Proof.
+  induction path as [|x path IH]; intro acc; cbn [fold_left map datas].
+  - destruct acc; reflexivity.
+  - rewrite IH. unfold red at 1. destruct acc as [a|].
+    + destruct (nth_error g (fst x)) as [n|]; [|reflexivity]. destruct (datas g (map fst path)); reflexivity.
+    + destruct (nth_error g (fst x)), (datas g (map fst path)); reflexivity.
+Qed.
+Lemma datas_some g ids : (forall i, In i ids -> (i < length g)%nat) -> exists l, datas g ids = Some l.
+Proof.
+  induction ids as [|i r IH]; intro H; cbn; [eauto|].
+  destruct (nth_error g i) eqn:E.
+  - destruct IH as [l ->]; [intros; apply H; now right|]. eauto.
+  - apply nth_error_None in E. specialize (H i (or_introl eq_refl)). lia.
+Qed.
+Lemma datas_app g a b : datas g (a ++ b) =
+  match datas g a, datas g b with Some x, Some y => Some (x ++ y) | _, _ => None end.
+Proof.
+  induction a as [|i a IH]; cbn.
+  - destruct (datas g b); reflexivity.
+  - rewrite IH. destruct (nth_error g i); [|reflexivity]. destruct (datas g a), (datas g b); reflexivity.
+Qed.
+Lemma seq_path_some g first p : (forall x, In x p -> (fst x < length g)%nat) ->
+  exists sq, sequence_of_path_from D K g first p = Some sq.
+Proof.
+  revert first. induction p as [|[i d] p IH]; intros first H; cbn; [eauto|].
+  destruct (nth_error g i) eqn:E.
+  - destruct (IH false) as [t ->]; [intros; apply H; now right|]. eauto.
+  - apply nth_error_None in E. specialize (H (i, d) (or_introl eq_refl)). cbn in H. lia.
+Qed.
+End Refine.
+
+Section Main.
+Variable D : Type.
+Variable reduce : D -> D -> D.
+Variable join : D -> D -> bool.
+Variable K : nat.
+Variable stranded : bool.
+Hypothesis join_sym : forall a b, join a b = join b a.
+Local Notation graph := (graph D).
+Local Notation gnode := (gnode D).
+Local Notation rnext := (rnext D join K stranded).
+Local Notation winv := (winv D K stranded).
+Local Notation wnext := (wnext D join K stranded).
+Local Notation ext_link := (ext_link D K stranded).
+Local Notation cp := cp.
+
+Definition flipc (x : nat * dir) : nat * dir := (fst x, dflip (snd x)).
+(* the node path assembled by build_node from the two walks *)
+Definition assemble (lp : list (nat * side)) (seed : nat) (rp : list (nat * side)) : list (nat * dir) :=
+  rev (map flipc (cp lp)) ++ (seed, DLeft) :: cp rp.
+Lemma assemble_verts lp seed rp : map fst (assemble lp seed rp) = node_verts nat lp seed rp.
+Proof.
+  unfold assemble, node_verts, verts, cp. rewrite map_app, map_rev. cbn [map fst]. rewrite !map_map.
+  cbn [fst flipc]. reflexivity.
+Qed.
+
+(* what build_node computed for one result node: spelled sequence, folded payload, terminal extensions *)
+Definition built (g : graph) (n : gnode) (lp : list (nat * side)) (seed : nat) (rp : list (nat * side)) : Prop :=
+  sequence_of_path D K g (assemble lp seed rp) = Some (n_seq D n) /\
+  (exists sd0 ds, option_map (n_data D) (nth_error g seed) = Some sd0 /\
+                  datas D g (verts nat lp ++ verts nat rp) = Some ds /\ n_data D n = fold_left reduce ds sd0) /\
+  n_exts D n =
+    e_from_single_dirs
+      (let le := texts D g (last_out nat seed L lp) in
+       match rb_last_dir (cp lp) with Some DLeft => e_complement le | _ => le end)
+      (let re := texts D g (last_out nat seed R rp) in
+       match rb_last_dir (cp rp) with Some DRight => e_complement re | _ => re end).
+
+Lemma rb_build_spec g S avail seed lp rp a3 :
+  winv g S -> (forall x, In x avail -> In x S) -> In seed avail ->
+  build nat Nat.eq_dec (wnext g S) avail seed = (lp, rp, a3) ->
+  exists n, rb_build_node D reduce join K stranded g avail seed =
+              Some (n_seq D n, n_exts D n, n_data D n, assemble lp seed rp, a3) /\ built g n lp seed rp.
+Proof.
+  intros W Hsub Hseed Hb. unfold build in Hb.
+  destruct (AbstractWalk.extend nat Nat.eq_dec (wnext g S) (Datatypes.S (length (remove Nat.eq_dec seed avail)))
+              (remove Nat.eq_dec seed avail) seed L) as [lp0 a2] eqn:EL.
+  destruct (AbstractWalk.extend nat Nat.eq_dec (wnext g S) (Datatypes.S (length a2)) a2 seed R) as [rp0 a3'] eqn:ER.
+  injection Hb as <- <- <-.
+  assert (HsS : In seed S) by auto.
+  unfold rb_build_node, extend_node. rewrite !remove_nat_remove.
+  change L with (sd DLeft) in EL. change R with (sd DRight) in ER.
+  destruct (extend_incl Nat.eq_dec _ _ _ _ _ _ _ EL) as [HL1 HL2].
+  destruct (extend_incl Nat.eq_dec _ _ _ _ _ _ _ ER) as [HR1 HR2].
+  assert (Hns : ~ In seed a2). { intro H. apply HL2 in H. apply in_remove in H. tauto. }
+  rewrite (extend_refines D join K stranded g S W _ _ _ _ _ _ HsS (Nat.lt_succ_diag_r _) EL).
+  rewrite remove_nat_remove, (notin_remove Nat.eq_dec a2 seed Hns).
+  rewrite (extend_refines D join K stranded g S W _ _ _ _ _ _ HsS (Nat.lt_succ_diag_r _) ER).
+  cbn [sd] in *.
+  assert (Hrem : forall x, In x (remove Nat.eq_dec seed avail) -> In x S).
+  { intros x Hx. apply in_remove in Hx. apply Hsub. tauto. }
+  assert (HinL : forall x, In x (verts nat lp0) -> (x < length g)%nat).
+  { intros x Hx. apply (wi_S _ _ _ _ _ W). auto. }
+  assert (HinR : forall x, In x (verts nat rp0) -> (x < length g)%nat).
+  { intros x Hx. apply (wi_S _ _ _ _ _ W). auto. }
+  assert (Hsn : exists sn, nth_error g seed = Some sn).
+  { destruct (nth_error g seed) eqn:E; eauto. apply nth_error_None in E. pose proof (wi_S _ _ _ _ _ W seed HsS). lia. }
+  destruct Hsn as [sn Hsn]. rewrite Hsn.
+  fold (red D reduce g). rewrite !fold_red.
+  assert (Hcpv : forall p, map fst (cp p) = verts nat p).
+  { intro p. unfold cp, verts. rewrite map_map. reflexivity. }
+  rewrite !Hcpv.
+  destruct (datas_some D g (verts nat lp0) HinL) as [dl Hdl].
+  destruct (datas_some D g (verts nat rp0) HinR) as [dr Hdr].
+  rewrite Hdl, Hdr.
+  fold (flipc). fold (assemble lp0 seed rp0).
+  destruct (seq_path_some D K g true (assemble lp0 seed rp0)) as [sq Hsq].
+  { intros x Hx. apply (in_map fst) in Hx. rewrite assemble_verts in Hx. apply in_node in Hx.
+    destruct Hx as [Hx|[->|Hx]]; auto. apply (wi_S _ _ _ _ _ W). auto. }
+  unfold sequence_of_path. rewrite Hsq.
+  eexists (sq, _, _). split; [reflexivity|]. unfold built, n_seq, n_exts, n_data. cbn [fst snd].
+  split; [exact Hsq|]. split; [|reflexivity].
+  exists (snd sn), (dl ++ dr). rewrite Hsn. cbn. split; [reflexivity|]. split.
+  - rewrite datas_app, Hdl, Hdr. reflexivity.
+  - now rewrite fold_left_app.
+Qed.
+
+(* the outer loop *)
+Definition result_ok (g : graph) (r : list (gnode * list (nat * dir))) (nodes : list (list nat)) : Prop :=
+  Forall2 (fun x N => map fst (snd x) = N /\
+             exists lp seed rp, snd x = assemble lp seed rp /\ built g (fst x) lp seed rp) r nodes.
+
+Lemma rb_loop_spec g S : winv g S -> forall ids avail,
+  (forall x, In x avail -> In x S) ->
+  exists r, rb_loop D reduce join K stranded g ids avail = Some r /\
+            result_ok g r (compress nat Nat.eq_dec (wnext g S) ids avail).
+Proof.
+  intro W. induction ids as [|i ids IH]; intros avail Hsub; cbn [rb_loop compress].
+  - exists []. split; auto. constructor.
+  - rewrite <- mem_nat_mem. destruct (mem_nat i avail) eqn:Ei.
+    + destruct (build nat Nat.eq_dec (wnext g S) avail i) as [[lp rp] a'] eqn:Eb.
+      apply mem_nat_In in Ei.
+      destruct (rb_build_spec g S avail i lp rp a' W Hsub Ei Eb) as (n & Hn & Hbuilt). rewrite Hn.
+      assert (Hsub' : forall x, In x a' -> In x S).
+      { intros x Hx. apply Hsub. unfold build in Eb.
+        destruct (AbstractWalk.extend nat Nat.eq_dec (wnext g S) _ (remove Nat.eq_dec i avail) i L) as [lp0 a2] eqn:EL.
+        destruct (AbstractWalk.extend nat Nat.eq_dec (wnext g S) _ a2 i R) as [rp0 a3'] eqn:ER.
+        injection Eb as <- <- <-.
+        apply (proj2 (extend_incl Nat.eq_dec _ _ _ _ _ _ _ ER)) in Hx.
+        apply (proj2 (extend_incl Nat.eq_dec _ _ _ _ _ _ _ EL)) in Hx. apply in_remove in Hx. tauto. }
+      destruct (IH a' Hsub') as (r & Hr & Hok). rewrite Hr.
+      eexists. split; [reflexivity|]. constructor; auto. cbn [fst snd]. split; [apply assemble_verts|].
+      exists lp, i, rp. split; [reflexivity | exact Hbuilt].
+    + apply IH; auto.
+Qed.
+End Main.
